@@ -4,7 +4,10 @@
    material.  Connect(cell) is the property's rule: without strict checking always; with it only when the file lists the
    server's key.  On a connection the server must have been offered exactly the configured identity (the password only
    through the authentication exchange; the key when one is configured; with both configured and the key rejected by the
-   server, the password).  The module enumerates all cells with the predicted outcome.                                  *)
+   server, the password).  The module enumerates all cells with the predicted outcome.                                     The decision is a function of what the known-hosts file says at the time of THAT connection and of the name the host
+   was configured by (an entry under another name or address does not count): the harness therefore runs every cell under an
+   address and under a name, rewrites the file between two connections through the same path, and for the system transport
+   also checks the argument list with the default port 22 (which must be passed like any other).                        *)
 EXTENDS Naturals, Sequences, TLC, Json
 VARIABLES transport, strict, kh, auth, emitted
 vars == <<transport, strict, kh, auth, emitted>>
